@@ -71,7 +71,7 @@ def load(tally):
             key = (st.name, r.name)
             if key in effects:
                 continue
-            paths, run = model.function_effect(r.func, to_z3(r.rx))
+            paths, run = model.function_effect(r.func, to_z3(r.rx), init_type=r.type)
             effects[key] = (paths, run)
             for p in paths:
                 for cls in p.get("pushes", []):
@@ -137,16 +137,51 @@ class LexAnalysis:
         self.discharged = []
         self.unsupported = []
         for key, (paths, run) in list(self.effects.items()) + [(("error", k), v) for k, v in self.err.items()]:
-            for p in paths:
+            for p in list(paths):
                 if p["outcome"] == "unsupported":
+                    # feasible at all?  (the path condition is a regular constraint on the lexeme: one membership query)
+                    try:
+                        reg = model.cond_to_regex(p["conds"])
+                        lx = z3.String("lexeme")
+                        res, m = common.check(self.tally, [z3.InRe(lx, reg)], 60000, label="token function: unsupported path feasible?")
+                        if res == "unsat":
+                            paths.remove(p)
+                            continue
+                    except rx.RxUnsupported:
+                        pass
                     self.unsupported.append("%s: %s" % (key, p["reason"]))
 
     # -- helpers ------------------------------------------------------------------------
+    def emissions(self, state, rule):
+        """[(emitted token type or None, regex over y restricting the lexeme)] for one rule"""
+        anyc = to_z3(ANYCH)
+        whole = z3.Concat(z3.Star(anyc), model.markre(), z3.Star(anyc))
+        if rule.func is None:
+            return [(None if rule.ignored_type else rule.type, whole)]
+        paths, run = self.effects[(state.name, rule.name)]
+        out = []
+        for p in paths:
+            if p["outcome"] != "token":
+                out.append((None, whole))
+                continue
+            t = p.get("type")
+            if not isinstance(t, str):
+                raise common.Inconclusive("token function %s assigns a non-constant token type" % rule.name)
+            # conds[0] is the assumption "lexeme in L(rule)"; the rest are the function's own branch conditions
+            lexre = model.cond_to_regex(p["conds"], n_skip=1)
+            ignored = t in state.cls._ignored_tokens
+            out.append((None if ignored else t, z3.Concat(lexre, model.markre(), z3.Star(anyc))))
+        return out
+
     def fires_by_type(self, state, ttype, behaviour_kind=None):
         regs = []
         for r in state.rules:
-            if r.type == ttype:
-                regs.append(model.fires_re(state, r))
+            f = None
+            for t, restr in self.emissions(state, r):
+                if t == ttype:
+                    if f is None:
+                        f = model.fires_re(state, r)
+                    regs.append(z3.Intersect(f, restr))
         return union(regs)
 
     def add(self, lemma, cls, witness, desc):
@@ -184,22 +219,25 @@ class LexAnalysis:
     def only(self, rule):
         """LX-ONLY: implementation emits a token  =>  the reference yields the same one"""
         st = self.main
-        fires = model.fires_re(st, rule)
-        try:
-            c = ref.by_name(rule.type)
-        except KeyError:
-            c = None
-        if c is None:
-            w = query(self.tally, z3.Intersect(fires, ref.context_ok()), "LX-ONLY(%s): implementation token with no reference class" % rule.name)
+        for etype, restr in self.emissions(st, rule):
+            if etype is None:
+                continue
+            fires = z3.Intersect(model.fires_re(st, rule), restr)
+            try:
+                c = ref.by_name(etype)
+            except KeyError:
+                c = None
+            if c is None:
+                w = query(self.tally, fires, "LX-ONLY(%s): implementation token %s with no reference class" % (rule.name, etype))
+                if w is not None:
+                    self.add("LX-ONLY", etype, w, "implementation emits %s(%r), a token the documentation does not have" % (etype, w[0]))
+                continue
+            reg = z3.Intersect(fires, z3.Complement(ref.ref_fires(c)))
+            w = query(self.tally, reg, "LX-ONLY(%s as %s): implementation emits the token, reference does not" % (rule.name, etype))
             if w is not None:
-                self.add("LX-ONLY", rule.type, w, "implementation emits %s(%r), a token the documentation does not have" % (rule.type, w[0]))
-            return
-        reg = z3.Intersect(fires, ref.context_ok(), z3.Complement(ref.ref_fires(c)))
-        w = query(self.tally, reg, "LX-ONLY(%s): implementation emits the token, reference does not" % rule.name)
-        if w is not None:
-            self.add("LX-ONLY", rule.type, w, "the implementation emits %s(%r) where the reference lexer does not" % (rule.type, w[0]))
-        else:
-            self.discharged.append("LX-ONLY(%s#%d)" % (rule.name, rule.index))
+                self.add("LX-ONLY", etype, w, "the implementation emits %s(%r) where the reference lexer does not" % (etype, w[0]))
+            else:
+                self.discharged.append("LX-ONLY(%s#%d as %s)" % (rule.name, rule.index, etype))
 
     def reject(self):
         """LX-REJECT: reference error (and not a comment opener) => no implementation rule matches, and error() raises"""
